@@ -382,6 +382,27 @@ pub fn storebytes<V: StoreBytes + Vw<L>, const L: usize, const N: usize>(bits: u
     }
 }
 
+/// UnsafeFrom<[T; N]> (building a vector from words) and PartialEq on the x86 vector types
+pub fn unsafe_from_eq<V: UnsafeFrom<[T; N]> + PartialEq + Vw<L>, T: Wd, const N: usize, const L: usize>() {
+    let sel: u8 = any();
+    match sel {
+        0 => {
+            let xs: [T; N] = any();
+            let v = unsafe { V::unsafe_from(xs) }.rd();
+            let mut ok = true;
+            let mut j = 0;
+            while j < N { ok &= xs[j].to128() == fword(v, T::BITS, j as u32); j += 1; }
+            obl!(ok, "unsafe_from_words");
+        }
+        1 => {
+            let a: View<L> = any();
+            let b: View<L> = any();
+            obl!((V::mk(a) == V::mk(b)) == eqv(a, b), "partial_eq_iff_equal_words");
+        }
+        _ => {}
+    }
+}
+
 /// value-preserving conversion between vector types of the same width
 pub fn convert<A: Vw<L> + Into<B>, B: Vw<L>, const L: usize>() {
     let a: View<L> = any();
